@@ -411,7 +411,17 @@ def nthroot_fixed(y, n, prec, exp1):
     extra = 10
     extra1 = n
     prevp = start
-    for p in giant_steps(start, prec+extra):
+    # Each Newton step doubles the number of correct bits but loses about
+    # log2(n) of them (the error constant of the iteration is (n-1)/2), so
+    # the precision steps must grow correspondingly slower than
+    # giant_steps() assumes
+    loss = bitcount(n) + 4
+    steps = [prec+extra]
+    for i in xrange(bitcount(prec+extra)):
+        if steps[-1] <= 2*(start-2) - loss:
+            break
+        steps.append((steps[-1] + loss + 1)//2)
+    for p in steps[::-1]:
         pm, pe = int_pow_fixed(r, n-1, prevp)
         r2 = rshift(pm, (n-1)*prevp - p - pe - extra1)
         B = lshift(y, 2*p-prec+extra1)//r2
